@@ -250,7 +250,7 @@ int main(int argc, char **argv) {
         int pfd[2]; if (pipe(pfd) != 0) { printf("<pipe failed>\n"); continue; }
         pid_t pid = fork();
         if (pid == 0) {
-            close(pfd[0]); alarm(CASE_SECONDS);
+            close(pfd[0]); hc_alarm(CASE_SECONDS);
             FILE *out = fdopen(pfd[1], "w");
             int e2 = dup(2); freopen("/dev/null", "w", stderr);   /* the writer and the reader chat on stderr */
             if (multi) multi_case(l, base, out);
